@@ -7,6 +7,8 @@ import (
 	"bytes"
 
 	"circlsim/core"
+
+	"github.com/cloudflare/circl/kem/frodo/frodo640shake"
 	kyber1024 "github.com/cloudflare/circl/kem/kyber/kyber1024"
 	kyber512 "github.com/cloudflare/circl/kem/kyber/kyber512"
 	kyber768t "github.com/cloudflare/circl/kem/kyber/kyber768"
@@ -508,6 +510,34 @@ func init() {
 				return append(out, 1)
 			}
 			return append(out, 0)
+		}})
+	typedKits = append(typedKits, typedKit{name: "kem/frodo/frodo640shake", seedLen: frodo640shake.KeySeedSize,
+		newKeys: func(seed []byte) (any, any) {
+			pk, sk := frodo640shake.Scheme().DeriveKeyPair(seed)
+			return pk.(*frodo640shake.PublicKey), sk.(*frodo640shake.PrivateKey)
+		},
+		newPK:  func() any { return new(frodo640shake.PublicKey) }, newSK: func() any { return new(frodo640shake.PrivateKey) },
+		packPK: func(k any) []byte { b := make([]byte, frodo640shake.PublicKeySize); k.(*frodo640shake.PublicKey).Pack(b); return b },
+		packSK: func(k any) []byte { b := make([]byte, frodo640shake.PrivateKeySize); k.(*frodo640shake.PrivateKey).Pack(b); return b },
+		unpackPK: func(k any, b []byte) bool {
+			if len(b) != frodo640shake.PublicKeySize {
+				return false
+			}
+			k.(*frodo640shake.PublicKey).Unpack(b)
+			return true
+		},
+		unpackSK: func(k any, b []byte) bool {
+			if len(b) != frodo640shake.PrivateKeySize {
+				return false
+			}
+			k.(*frodo640shake.PrivateKey).Unpack(b)
+			return true
+		},
+		use: func(pk, sk any, r *core.PRNG) []byte {
+			ct, ss, ss2 := make([]byte, frodo640shake.CiphertextSize), make([]byte, frodo640shake.SharedKeySize), make([]byte, frodo640shake.SharedKeySize)
+			pk.(*frodo640shake.PublicKey).EncapsulateTo(ct, ss, r.Bytes(frodo640shake.EncapsulationSeedSize))
+			sk.(*frodo640shake.PrivateKey).DecapsulateTo(ss2, ct)
+			return append(append(ct[:32:32], ss...), ss2...)
 		}})
 }
 
